@@ -322,6 +322,12 @@ def run_config_symbolic(pid, cfg, tier, seed):
                 for o, g in zip(obs_g, newg):
                     swept[id(o)] = (g, None)
             for o in case.obs:
+                nrep = sum(1 for r0 in rec['obligations'] if r0.get('verdict') == 'cex' and
+                           (r0.get('replay') or {}).get('status') in ('reproduced', 'reproduced-other'))
+                if nrep >= cfg.get('max_violations', 4) and o.goal() is not tm.TRUE:
+                    rec['obligations'].append({'name': o.name, 'kind': o.kind, 'verdict': 'unknown', 's': 0.0, 'size': 0,
+                                               'method': o.method, 'note': 'skipped: this configuration already has %d replayed violations' % nrep})
+                    continue
                 orec = discharge(mod, pid, cfg, o, A, B, timeout_ms, seed, path, swept.get(id(o)))
                 rec['obligations'].append(orec)
     except Exception as e:
@@ -333,6 +339,7 @@ def run_config_symbolic(pid, cfg, tier, seed):
 
 def discharge(mod, pid, cfg, o, A, B, timeout_ms, seed, path, swept_goal=None):
     from . import prove
+    from . import ctx as _ctx_mod
     goal = o.goal()
     AA = A + [L(a) for a in o.assume]
     to = o.timeout_ms or timeout_ms
@@ -354,8 +361,9 @@ def discharge(mod, pid, cfg, o, A, B, timeout_ms, seed, path, swept_goal=None):
                 res = prove.Result('cex', env=genv, note='binary64 point proposed by sampling, decided sat by z3 (QF_FP) with pinned inputs')
             else:
                 res = _fp.valid_fp(goal, AA, to)
-        elif o.replayable and orec['size'] > 40:
-            genv, how = prove.guided_cex(goal, AA, B.sampler(seed + 1), defined=not o.meta.get('no_definedness', False))
+        elif o.replayable and orec['size'] > cfg.get('guided_min_size', 40):
+            lins = (path.ctx.memo if path is not None else _ctx_mod.cur().memo).get('linsolves')
+            genv, how = prove.guided_cex(goal, AA, B.sampler(seed + 1), defined=not o.meta.get('no_definedness', False), linsolves=lins)
             if genv is not None:
                 res = prove.Result('cex', env=genv, note='model proposed by simulation, ' + (
                     'decided sat by z3 with pinned inputs' if how == 'z3-pinned' else
